@@ -34,6 +34,22 @@ Match(a, f) == CASE f \in {"t1", "t2"} -> Type[a] = f
 \* subject maps: a1 and a2 name an image, only a3 may name another artifact
 SubjMaps == {m \in [Arts -> Subj] : m["a1"] # "a1" /\ m["a2"] # "a1"}
 
+\* subject maps by name: "ror" a3 names a1 (referrer of a referrer), "same" all three name one
+\* subject, "split" a2 names the absent subject s2, "absent" all name s2, "all" every admissible map
+SubjOf(sel) == CASE sel = "ror"    -> {[a \in Arts |-> IF a = "a3" THEN "a1" ELSE "s1"]}
+                 [] sel = "same"   -> {[a \in Arts |-> "s1"]}
+                 [] sel = "split"  -> {[a \in Arts |-> IF a = "a2" THEN "s2" ELSE "s1"]}
+                 [] sel = "absent" -> {[a \in Arts |-> IF a = "a3" THEN "a1" ELSE "s2"]}
+                 [] sel = "all"    -> SubjMaps
+\* configuration space; paging only matters with the API, the response cache and missing tag-delete
+\* support only for registries
+ConfSpace(Modes, Caches, Pages, TagDels, SubjSel) ==
+  {c \in {[mode |-> m, cache |-> ch, page |-> g, tagdel |-> t, subj |-> sm] :
+             m \in Modes, ch \in Caches, g \in Pages, t \in TagDels, sm \in UNION {SubjOf(x) : x \in SubjSel}} :
+     /\ (c.mode # "api" => c.page = 0)
+     /\ (c.mode = "oci" => c.cache = 0 /\ c.tagdel = 1)
+     /\ (c.mode = "api" => c.tagdel = 1)}
+
 Range(s) == {s[i] : i \in 1..Len(s)}
 HasDup(s) == \E i, j \in 1..Len(s) : i < j /\ s[i] = s[j]
 Expect(stored, subj, s, f) == {a \in stored : subj[a] = s /\ Match(a, f)}
